@@ -131,6 +131,8 @@ def minList : List Nat → Option Nat
 
 /-- let virtual time pass: the earliest active timer within the horizon fires -/
 def advanceTime (d : D) (w : World) : Option World :=
+  -- the dispatcher's timers die with `InnerDispatcher` when the connection is upgraded
+  if d.upgraded then none else
   match minList (timerDeadlines d w.now) with
   | some dl => if dl ≤ w.now + timeHorizon then some { w with now := dl, woken := true } else none
   | none => none
